@@ -453,7 +453,7 @@ def case_strategy():
 
     @st.composite
     def s(draw):
-        c = draw(gen.message_case())
+        c = draw(gen.message_case(opts={"table_struct_first": True}))
         c["random"] = draw(st.lists(st.binary(min_size=0, max_size=24), min_size=2, max_size=6))
         return c
     return s()
